@@ -556,6 +556,12 @@ class IRGenerator:
 
         params = []
         for param in item.params:
+            if isinstance(param, AstVoidField):
+                # The grammar shares the field rules of unions, where the
+                # type can be left out.
+                raise InvalidSpec(
+                    'Parameter {} must have a type.'.format(quote(param.name)),
+                    param.lineno, param.path)
             if param.annotations:
                 raise InvalidSpec(
                     'Annotations cannot be applied to parameters of annotation types',
